@@ -7,8 +7,11 @@ case-insensitively, returns an empty answer for a known name lacking the request
 NXDOMAIN only for unknown names, and returns certificate details only to loopback clients or its own
 overlay addresses."  — for all queries, client addresses and handshake histories.
 
-`run me evs` is the responder after an arbitrary history `evs` of completed handshakes, self seedings and
-disable/enable reloads, with own certificate `me`. The reply is about the first question of the request
+`run me evs` is the responder after an arbitrary history `evs` of completed handshakes, self seedings,
+disable/enable reloads, own-certificate renewals (`renew`: possibly under another name and with other
+addresses) and tunnel teardowns (`drop`), started with own certificate `me`; `selfAfter me evs` is the
+own certificate at the end of the history — answers must come from *that* certificate or from a
+handshaked peer's, so the name of a replaced own certificate must stop resolving. The reply is about the first question of the request
 (miekg/dns `SetReply` copies only that one): `qs.take 1`.
 "Known name" = a name the responder holds an address record for (`nameExists`).
 -/
@@ -23,22 +26,22 @@ handshake or to the responder's own certificate. -/
 theorem a_answers_from_certs (me : Self) (evs : List Ev) (client : Addr) (opcode : Nat)
     (qs : List Question) (name : Name) (addr : Addr)
     (h : Answer.a name addr ∈ (handle (run me evs) client opcode qs).answers) :
-    addr.fam = .v4 ∧ authentic me evs name addr = true ∧
+    addr.fam = .v4 ∧ authentic (selfAfter me evs) evs name addr = true ∧
       ∃ q ∈ qs.take 1, q.qtype = typeA ∧ q.name = name := by
   have inv := inv_run me evs
   obtain ⟨hget, hq⟩ := handle_answers _ _ _ _ _ h
-  obtain ⟨hf, hsrc⟩ := inv.m4 _ (get_mem hget)
+  obtain ⟨hf, hsrc⟩ := inv.src4 (get_mem hget)
   exact ⟨hf, authentic_of_src hsrc, hq⟩
 
 /-- The same for AAAA answers and IPv6 addresses. -/
 theorem aaaa_answers_from_certs (me : Self) (evs : List Ev) (client : Addr) (opcode : Nat)
     (qs : List Question) (name : Name) (addr : Addr)
     (h : Answer.aaaa name addr ∈ (handle (run me evs) client opcode qs).answers) :
-    addr.fam = .v6 ∧ authentic me evs name addr = true ∧
+    addr.fam = .v6 ∧ authentic (selfAfter me evs) evs name addr = true ∧
       ∃ q ∈ qs.take 1, q.qtype = typeAAAA ∧ q.name = name := by
   have inv := inv_run me evs
   obtain ⟨hget, hq⟩ := handle_answers _ _ _ _ _ h
-  obtain ⟨hf, hsrc⟩ := inv.m6 _ (get_mem hget)
+  obtain ⟨hf, hsrc⟩ := inv.src6 (get_mem hget)
   exact ⟨hf, authentic_of_src hsrc, hq⟩
 
 /-- Certificate details (TXT answers) are returned only to loopback clients or the node's own overlay
@@ -47,9 +50,9 @@ own or that of a handshaked peer owning that address. -/
 theorem txt_only_local (me : Self) (evs : List Ev) (client : Addr) (opcode : Nat)
     (qs : List Question) (name : Name) (c : CertId)
     (h : Answer.txt name c ∈ (handle (run me evs) client opcode qs).answers) :
-    isLocal me client = true ∧
+    isLocal (selfAfter me evs) client = true ∧
       ∃ q ∈ qs.take 1, q.qtype = typeTXT ∧ q.name = name ∧
-        ∃ ip, q.parsed = some ip ∧ certOwns me evs ip c = true := by
+        ∃ ip, q.parsed = some ip ∧ certOwns (selfAfter me evs) evs ip c = true := by
   have inv := inv_run me evs
   obtain ⟨hloc, q, hq, ht, hn, hc⟩ := handle_answers _ _ _ _ _ h
   rw [isLocal_eq, inv.self_eq] at hloc
@@ -57,7 +60,7 @@ theorem txt_only_local (me : Self) (evs : List Ev) (client : Addr) (opcode : Nat
 
 /-- A client that is neither loopback nor one of our overlay addresses never receives a TXT answer. -/
 theorem remote_client_no_txt (me : Self) (evs : List Ev) (client : Addr) (opcode : Nat)
-    (qs : List Question) (hremote : isLocal me client = false) (name : Name) (c : CertId) :
+    (qs : List Question) (hremote : isLocal (selfAfter me evs) client = false) (name : Name) (c : CertId) :
     Answer.txt name c ∉ (handle (run me evs) client opcode qs).answers := by
   intro h
   have := (txt_only_local me evs client opcode qs name c h).1
@@ -152,7 +155,7 @@ theorem known_name_nodata (me : Self) (evs : List Ev) (client : Addr) (opcode : 
 theorem model_satisfies_oracle (me : Self) (evs : List Ev) (client : Addr) (opcode : Nat) (qs : List Question) :
     respViolation me evs client (qs.take 1) (handle (run me evs) client opcode qs) = none := by
   have hall : ∀ a ∈ (handle (run me evs) client opcode qs).answers,
-      answerOK me evs client (qs.take 1) a = true := by
+      answerOK (selfAfter me evs) evs client (qs.take 1) a = true := by
     intro a ha
     cases a with
     | a name addr =>
@@ -168,11 +171,12 @@ theorem model_satisfies_oracle (me : Self) (evs : List Ev) (client : Addr) (opco
       simp only [answerOK, h1, Bool.true_and]
       exact List.any_eq_true.mpr ⟨q, hq, by simp [h3, h4, h5, h6]⟩
   have hfind : (handle (run me evs) client opcode qs).answers.find?
-      (fun a => !answerOK me evs client (qs.take 1) a) = none := by
+      (fun a => !answerOK (selfAfter me evs) evs client (qs.take 1) a) = none := by
     rw [List.find?_eq_none]
     intro a ha
     simp [hall a ha]
   unfold respViolation
+  simp only []
   rw [hfind]
   simp only
   by_cases hrc : (handle (run me evs) client opcode qs).rcode = rcodeNameError
@@ -194,6 +198,40 @@ theorem model_satisfies_oracle (me : Self) (evs : List Ev) (client : Addr) (opco
       rw [h0]; decide
     have hd : ¬ (rcodeSuccess = rcodeNameError) := by decide
     simp [h0, hd]
+
+/-- Renaming the own certificate withdraws the previously seeded own name: after a `renew` under a
+different name on an enabled responder, the old own name has no record at all (unless … nothing: even
+a peer's record under that name is dropped). This is the statement the seeded change C44-1 breaks. -/
+theorem renamed_own_name_withdrawn (s : St) (n : Name) (as : List Addr) (hen : s.enabled = true)
+    (hold : s.selfHost ≠ []) (hdiff : s.selfHost ≠ lower n ++ ['.']) :
+    hasKey (apply s (.renew n as)).map4 s.selfHost = false ∧
+    hasKey (apply s (.renew n as)).map6 s.selfHost = false := by
+  have hst : (s.selfHost != [] && s.selfHost != lower n ++ ['.']) = true := by simp [hold, hdiff]
+  simp only [apply, seedSelf, hen, Bool.not_true, Bool.false_eq_true, if_false, hst, if_true]
+  have k := addLoop_keys (lower n ++ ['.']) as false false
+    ((s.map4.del s.selfHost).del (lower n ++ ['.'])) ((s.map6.del s.selfHost).del (lower n ++ ['.'])) s.selfHost
+  have d4 : hasKey ((s.map4.del s.selfHost).del (lower n ++ ['.'])) s.selfHost = false := by
+    rw [hasKey_del, hasKey_del]; simp
+  have d6 : hasKey ((s.map6.del s.selfHost).del (lower n ++ ['.'])) s.selfHost = false := by
+    rw [hasKey_del, hasKey_del]; simp
+  constructor
+  · cases h : hasKey (addLoop (lower n ++ ['.']) as false false ((s.map4.del s.selfHost).del (lower n ++ ['.']))
+        ((s.map6.del s.selfHost).del (lower n ++ ['.']))).1 s.selfHost
+    · rfl
+    · rcases k.1 h with h' | h'
+      · rw [d4] at h'; cases h'
+      · exact absurd h' hdiff
+  · cases h : hasKey (addLoop (lower n ++ ['.']) as false false ((s.map4.del s.selfHost).del (lower n ++ ['.']))
+        ((s.map6.del s.selfHost).del (lower n ++ ['.']))).2 s.selfHost
+    · rfl
+    · rcases k.2.1 h with h' | h'
+      · rw [d6] at h'; cases h'
+      · exact absurd h' hdiff
+
+/-- While DNS is disabled the responder holds no record (so every address question is NXDOMAIN). -/
+theorem disabled_holds_nothing (me : Self) (evs : List Ev) (h : (run me evs).enabled = false) :
+    (run me evs).map4 = [] ∧ (run me evs).map6 = [] :=
+  (inv_run me evs).off h
 
 /-! Non-vacuity: a concrete history in which every kind of reply occurs. -/
 
@@ -221,5 +259,14 @@ example : handle (run exSelf exEvs) remote4 0
 example : isLocal exSelf remote4 = false ∧ isLocal exSelf loop4 = true := by decide +kernel
 example : nameExists (run exSelf exEvs) ['H', 'O', 'S', 'T', '1', '.'] = true ∧ nameExists (run exSelf exEvs) ['l', 'h', '.'] = true := by
   decide +kernel
+
+-- certificate renewal under another name: the new name resolves, the old one is NXDOMAIN again
+def exRenamed : List Ev := exEvs ++ [.renew ['l', 'h', '2'] [{ fam := .v4, val := 0x0a000001 }]]
+example : handle (run exSelf exRenamed) remote4 0 [{ qtype := 1, name := ['L', 'H', '2', '.'], parsed := none }] =
+    { rcode := 0, answers := [.a ['L', 'H', '2', '.'] { fam := .v4, val := 0x0a000001 }] } := by decide +kernel
+example : handle (run exSelf exRenamed) remote4 0 [{ qtype := 1, name := ['l', 'h', '.'], parsed := none }] =
+    { rcode := 3, answers := [] } := by decide +kernel
+example : known exSelf exRenamed ['l', 'h', '.'] = false ∧ known exSelf exEvs ['l', 'h', '.'] = true ∧
+    formerOwnNames exSelf exRenamed = [['l', 'h', '.']] := by decide +kernel
 
 end Nebula.Props.C44
